@@ -11,7 +11,7 @@ C12 - Loading fails only in documented ways and never half-applies input.
 import ast
 
 from ..src import AnalysisError, loc, src, dotted, call_attr, param_names, walk_local, qualname
-from .. import pm, cfg as cfgmod
+from .. import pm, absint, cfg as cfgmod
 from ..callgraph import CallGraph
 from .common import exception_class_name
 
@@ -257,17 +257,30 @@ def convert(ctx):
     for q in _text_derived_functions(repo):
         fn = repo.func(q)
         P = param_names(fn, skip_self=False)
-        sites = []
-        for node in ast.walk(fn):
-            if isinstance(node, ast.Call):
-                d = dotted(node.func)
-                if d in PARTIAL_CONVERTERS and node.args:
-                    sites.append(node)
+        # converter sites in the function itself and in helpers (functions outside the reference inventory) it calls:
+        # a site inside a helper is guarded by the helper's own try or by the try around the call of the helper
+        sites = []      # (converter call, function containing it, chain of call sites from fn down to that function)
+        resolver = absint.default_helpers(fn)
+
+        def collect(f, chain, seen):
+            for node in ast.walk(f):
+                if isinstance(node, ast.Call):
+                    d = dotted(node.func)
+                    if d in PARTIAL_CONVERTERS and node.args:
+                        sites.append((node, f, chain))
+                    h = resolver(node) if resolver is not None else None
+                    if h is not None and id(h) not in seen:
+                        collect(h, chain + [(node, f)], seen | {id(h)})
+        collect(fn, [], {id(fn)})
         if len(sites) < 3:
             raise AnalysisError('%s: only %d partial converters found in %s' % (loc(fn), len(sites), q))
-        for c in sites:
+        for c, f, chain in sites:
             d = dotted(c.func)
-            guarded, how = _guarded(c, fn)
+            guarded, how = _guarded(c, f)
+            for call_site, caller in reversed(chain):
+                if guarded:
+                    break
+                guarded, how = _guarded(call_site, caller, converter=d)
             r.check(guarded, '%s: %s is guarded (%s)' % (q, src(c), how), c, construct=q, key='unguarded ' + src(c),
                     msg='%s: `%s` raises %s for a value of the wrong lexical class (e.g. a string or a fraction in this '
                         'column); nothing converts it to the loader\'s ParsingException' % (q, src(c), PARTIAL_CONVERTERS[d]))
@@ -284,7 +297,7 @@ def convert(ctx):
                 msg='%s no longer raises ParsingException when deserialize_value yields None' % q)
 
 
-def _guarded(call, fn):
+def _guarded(call, fn, converter=None):
     # (a) enclosing try with a handler that catches the converter's exception (or broader)
     cur = call
     while cur is not fn and cur is not None:
@@ -306,6 +319,8 @@ def _guarded(call, fn):
                         return True, 'try/except %s' % ','.join(names)
         cur = parent
     # (b) dominated by a lexical-class test on the same argument (int only): <arg>.isdigit()
+    if converter is not None or not call.args:
+        return False, ''
     arg = call.args[0]
     d = dotted(call.func)
     if d == 'int' and isinstance(arg, ast.Name):
